@@ -375,5 +375,61 @@ def rule_r7(ctx) -> RuleResult:
     return shared(c01.rule_r7(ctx), "C02.R7", "beginning-of-line state is reset per parse and balanced by its manager (shared with C01.R7)",
                   "after a parse that left the state disabled, list lines of later pages stay plain text", min_instances=5)
 
+def rule_r8(ctx) -> RuleResult:
+    """`with ctx.begline_disabled` scopes nest (a link inside a template argument).  Line-start handling -- which closes the
+    open list items, lists and sections -- may come back only when the *outermost* scope ends, i.e. when the counter is back
+    at 0 after the decrement.  The test that re-enables it is a comparison of the counter with a constant; it is folded for
+    the counter values 0..3 and has to be true exactly for 0."""
+    rr = RuleResult("C02.R8", "line-start handling is re-enabled only when the outermost disable scope ends", min_instances=1)
+    core = ctx.index.mod("core")
+    ex = core.funcs.get("BegLineDisableManager.__exit__")
+    if ex is None:
+        raise AnalysisError("BegLineDisableManager.__exit__ vanished")
+    import operator
+    ops = {ast.Lt: operator.lt, ast.LtE: operator.le, ast.Eq: operator.eq, ast.Gt: operator.gt, ast.GtE: operator.ge, ast.NotEq: operator.ne}
+
+    def fold(test):
+        """truth table of `test` over counter values 0..3, or None"""
+        if isinstance(test, ast.UnaryOp) and isinstance(test.op, ast.Not):
+            if unparse(test.operand).endswith("begline_disable_counter"):
+                return [c == 0 for c in range(4)]
+            f = fold(test.operand)
+            return None if f is None else [not x for x in f]
+        if isinstance(test, ast.Compare) and len(test.ops) == 1 and type(test.ops[0]) in ops:
+            l, r = test.left, test.comparators[0]
+            if unparse(l).endswith("begline_disable_counter") and isinstance(r, ast.Constant) and isinstance(r.value, int):
+                return [ops[type(test.ops[0])](c, r.value) for c in range(4)]
+            if unparse(r).endswith("begline_disable_counter") and isinstance(l, ast.Constant) and isinstance(l.value, int):
+                return [ops[type(test.ops[0])](l.value, c) for c in range(4)]
+        return None
+
+    sites = []
+    for n in walk_no_nested(ex):
+        if isinstance(n, ast.If) and any(isinstance(a, ast.Assign) and unparse(a.targets[0]).endswith("begline_enabled")
+                                         and isinstance(a.value, ast.Constant) and a.value.value is True for st in n.body for a in ast.walk(st)):
+            sites.append((n, n.test))
+        elif isinstance(n, ast.Assign) and unparse(n.targets[0]).endswith("begline_enabled") and not isinstance(n.value, ast.Constant):
+            sites.append((n, n.value))
+    uncond = [n for n in ex.body if isinstance(n, ast.Assign) and unparse(n.targets[0]).endswith("begline_enabled")
+              and isinstance(n.value, ast.Constant) and n.value.value is True]
+    for n in uncond:
+        rr.bad(Finding("C02.R8", "src/wikitextprocessor/core.py", "core.BegLineDisableManager.__exit__", unparse(n),
+                       "leaving any scope re-enables line-start handling, also while an enclosing template/link argument is still open", n.lineno))
+    if not sites and not uncond:
+        raise AnalysisError("BegLineDisableManager.__exit__: the statement that re-enables line-start handling was not recognised (inconclusive)")
+    for n, test in sites:
+        tt = fold(test)
+        if tt is None:
+            raise AnalysisError("BegLineDisableManager.__exit__: test `{}` is not a comparison of the counter with a constant (inconclusive)".format(unparse(test)[:60]))
+        if tt == [True, False, False, False]:
+            rr.ok("core.BegLineDisableManager.__exit__", "re-enabled iff `{}` -- true only for counter 0".format(unparse(test)))
+        else:
+            wrong = [c for c in range(4) if tt[c] != (c == 0)]
+            rr.bad(Finding("C02.R8", "src/wikitextprocessor/core.py", "core.BegLineDisableManager.__exit__", "re-enabled iff " + unparse(test),
+                           "with {} enclosing scope(s) still open the test is {}: after `{{{{t|[[x]]\\nfoo}}}}` the next line start inside the argument "
+                           "closes the open template, list item, list and sections".format(wrong[0], tt[wrong[0]]), n.lineno))
+    return rr
+
+
 def run(ctx) -> list:
-    return [rule_r1(ctx), rule_r2(ctx), rule_r3(ctx), rule_r4(ctx), rule_r5(ctx), rule_r6(ctx), rule_r7(ctx)]
+    return [rule_r1(ctx), rule_r2(ctx), rule_r3(ctx), rule_r4(ctx), rule_r5(ctx), rule_r6(ctx), rule_r7(ctx), rule_r8(ctx)]
